@@ -393,8 +393,9 @@ where
         let r = match self.refs.get(old.id)? {
             XRef::Free { .. } => panic!(),
             XRef::Raw { gen_nr, .. } => PlainRef { id: old.id, gen: gen_nr },
-            XRef::Stream { .. } => return self.create(obj),
-            XRef::Promised => PlainRef { id: old.id, gen: 0 },
+            // an object stored in an object stream keeps its number (generation 0):
+            // the new revision overrides the compressed entry
+            XRef::Stream { .. } | XRef::Promised => PlainRef { id: old.id, gen: 0 },
             XRef::Invalid => panic!()
         };
         let primitive = obj.to_primitive(self)?;
